@@ -1150,6 +1150,7 @@ int Interpret::interpPipe() {
 
     bool inComment = false;
     bool inString = false;
+    bool escapedInString = false;
     bool inQuotedSymbol = false;
 
     bool done  = false;
@@ -1204,7 +1205,14 @@ int Interpret::interpPipe() {
             }
             assert (not inComment and not inQuotedSymbol);
             if (inString) {
-                inString = (c != '\"');
+                // the lexer reads \" and \\ inside a string literal as escaped characters
+                if (escapedInString) {
+                    escapedInString = false;
+                } else if (c == '\\') {
+                    escapedInString = true;
+                } else {
+                    inString = (c != '\"');
+                }
             } else if (c == '\"') {
                 inString = true;
             }
